@@ -112,8 +112,8 @@ Section Link.
     destruct (Hfields _ _ H2) as [g3 Hg3]. exists g3. rewrite Hg3. destruct cl; reflexivity.
   Qed.
 
-  (* the statement *)
-  Theorem point_gets_leaf_material_linked :
+  (* the core: the volume hypothesis is only needed for a cell that contains the point *)
+  Lemma point_core :
     forall fuel cf ifd ifg num den (s0 s1 s2 : M5.state T surf) rs cells3,
     P5.fresh_ok T surf s0 -> M5.s_cache s0 = [] -> NoDup (map fst (M5.s_cells s0)) ->
     P5.all_ref_free T surf s0 ->
@@ -124,12 +124,14 @@ Section Link.
     (* a filled level-0 cell and the cells returned for it *)
     forall key ks, In (key, ks) (combine (M5.fill_keys (M5.s_cells s0)) rs) ->
     (* every returned cell has an emitted volume that carries the cell's idorigin *)
-    forall vols g,
-    (forall k, In k ks -> exists v ncl, In (k, v) vols /\ v_fictive v = false /\
-                                        M5.dget k cells3 = Some ncl /\ v_origin v = M5.c_orig ncl) ->
+    forall vols g p,
+    (forall k, In k ks ->
+       S5.Den T surf P sense (P5.set_cells T surf s2 cells3) p (M5.TRef k) true ->
+       exists v ncl, In (k, v) vols /\ v_fictive v = false /\
+                     M5.dget k cells3 = Some ncl /\ v_origin v = M5.c_orig ncl) ->
     geomcomp vols (bridge_cells cells3) = Ok g ->
-    (* a point located, in the deck as written, along the descent ch below key *)
-    forall p ch,
+    (* the point is located, in the deck as written, along the descent ch below key *)
+    forall ch,
     S5.LocW T surf P tr_empty inv sense s0 (M5.by_universe (M5.s_cells s0)) key p ch true ->
     exists k ncl lcl z,
       In k ks /\
@@ -151,7 +153,7 @@ Section Link.
                            ks chs).
   Proof.
     intros fuel cf ifd ifg num den s0 s1 s2 rs cells3 Hf Hc Hnd Hrf Ho Ht Hfill Hinl
-           key ks Hpair vols g Hvols Hg p ch Hloc.
+           key ks Hpair vols g p Hvols Hg ch Hloc.
     pose proof (T5.C05_pipeline_located T surf P tr_empty teqb tr_surf inv sense Hsense Hkey
                   fuel cf ifd ifg num den s0 s1 s2 rs cells3 Hf Hc Hnd Hrf Ho Ht Hfill Hinl) as HO.
     pose proof (Forall2_pick_pair _ _ _ key ks HO Hpair) as [chs [_ [HR HV]]].
@@ -159,7 +161,7 @@ Section Link.
     destruct (Forall2_pick _ _ ks chs ch HR HVer Hin) as [k [Hk [Hrep Hver]]].
     destruct Hrep as [ncl [lcl [H1 [H2 [H3 [H4 [H5 [H6 _]]]]]]]].
     change (M5.s_cells (P5.set_cells T surf s2 cells3)) with cells3 in H1.
-    destruct (Hvols k Hk) as [v [ncl' [Hv1 [Hv2 [Hv3 Hv4]]]]].
+    destruct (Hvols k Hk (proj1 Hver eq_refl)) as [v [ncl' [Hv1 [Hv2 [Hv3 Hv4]]]]].
     rewrite H1 in Hv3. inversion Hv3; subst ncl'. clear Hv3.
     destruct (geomcomp_name vols (bridge_cells cells3) g Hg) as [A _].
     destruct (A k v Hv1 Hv2) as [c [z [Hc1 [Hz Hm]]]].
@@ -187,5 +189,154 @@ Section Link.
     - exact Hlive.
     - simpl. rewrite H5. now rewrite <- Hcm.
     - simpl. now rewrite H6.
+  Qed.
+  (* the statement of round 2 *)
+  Theorem point_gets_leaf_material_linked :
+    forall fuel cf ifd ifg num den (s0 s1 s2 : M5.state T surf) rs cells3,
+    P5.fresh_ok T surf s0 -> M5.s_cache s0 = [] -> NoDup (map fst (M5.s_cells s0)) ->
+    P5.all_ref_free T surf s0 ->
+    (forall c cl, M5.dget c (M5.s_cells s0) = Some cl -> M5.c_orig cl = []) ->
+    M5.trcl_phase T surf tr_empty teqb tr_surf fuel (map fst (M5.s_cells s0)) s0 = M5.Ok s1 ->
+    M5.fill_phase T surf tr_empty teqb tr_surf fuel cf ifd ifg s1 = M5.Ok (rs, s2) ->
+    M5.inline_cells T fuel num den (M5.s_cells s2) = M5.Ok cells3 ->
+    forall key ks, In (key, ks) (combine (M5.fill_keys (M5.s_cells s0)) rs) ->
+    forall vols g,
+    (forall k, In k ks -> exists v ncl, In (k, v) vols /\ v_fictive v = false /\
+                                        M5.dget k cells3 = Some ncl /\ v_origin v = M5.c_orig ncl) ->
+    geomcomp vols (bridge_cells cells3) = Ok g ->
+    forall p ch,
+    S5.LocW T surf P tr_empty inv sense s0 (M5.by_universe (M5.s_cells s0)) key p ch true ->
+    exists k ncl lcl z,
+      In k ks /\
+      S5.Den T surf P sense (P5.set_cells T surf s2 cells3) p (M5.TRef k) true /\
+      M5.dget k cells3 = Some ncl /\ M5.c_orig ncl = S5.prov ch /\
+      M5.dget (last ch 0) (M5.s_cells s0) = Some lcl /\
+      int_of_token (mat_of (M5.c_mat lcl)) = Some z /\
+      member g (material_name z (bridge lcl)) k /\
+      (forall l d, comp_names z (bridge_cells cells3) = Ok l -> dens_normal (bridge_cells cells3) ->
+                   live (bridge ncl) = true -> dens_of (M5.c_rho lcl) = Some d ->
+                   In ("m" ++ material_name z (bridge lcl))%string l) /\
+      (exists chs, Forall2 (S5.VerdictW T surf P tr_empty inv sense s0
+                              (M5.by_universe (M5.s_cells s0)) (P5.set_cells T surf s2 cells3) key p ch)
+                           ks chs).
+  Proof.
+    intros fuel cf ifd ifg num den s0 s1 s2 rs cells3 Hf Hc Hnd Hrf Ho Ht Hfill Hinl
+           key ks Hpair vols g Hvols Hg p ch Hloc.
+    apply (point_core fuel cf ifd ifg num den s0 s1 s2 rs cells3 Hf Hc Hnd Hrf Ho Ht Hfill Hinl
+             key ks Hpair vols g p (fun k Hk _ => Hvols k Hk) Hg ch Hloc).
+  Qed.
+
+  (* ---- the returned cells are live when their container is ---- *)
+  Lemma in_dget_nodup {V} k (v : V) d : NoDup (map fst d) -> In (k, v) d -> M5.dget k d = Some v.
+  Proof.
+    induction d as [|[k' v'] r IH]; simpl; intros Hnd H; [tauto|].
+    inversion Hnd as [|? ? Hk Hr]; subst. destruct H as [H|H].
+    - inversion H; subst. now rewrite Z.eqb_refl.
+    - destruct (k =? k') eqn:E; [|auto]. apply Z.eqb_eq in E. subst k'.
+      elim Hk. apply in_map_iff. exists (k, v). auto.
+  Qed.
+
+  Lemma fill_keys_univ0 (cells : list (Z * M5.cell T)) key :
+    NoDup (map fst cells) -> In key (M5.fill_keys cells) ->
+    exists cl, M5.dget key cells = Some cl /\ M5.c_univ cl = 0.
+  Proof.
+    unfold M5.fill_keys. intros Hnd H. apply in_map_iff in H. destruct H as [[k cl] [E H]].
+    simpl in E. subst k. apply filter_In in H. destruct H as [Hin Hf]. simpl in Hf.
+    apply andb_true_iff in Hf. destruct Hf as [_ Hu]. apply Z.eqb_eq in Hu.
+    exists cl. split; [now apply in_dget_nodup | exact Hu].
+  Qed.
+
+  Lemma Forall2_In_l' {A B} (R : A -> B -> Prop) l m a :
+    Forall2 R l m -> In a l -> exists b, In b m /\ R a b.
+  Proof.
+    intros H. induction H as [|x y l m Hxy _ IH]; simpl; [tauto|].
+    intros [<-|Hin]; [exists y; auto|]. destruct (IH Hin) as [b [Hb Hr]]. exists b. auto.
+  Qed.
+
+  Lemma returned_cells_live :
+    forall fuel cf ifd ifg num den (s0 s1 s2 : M5.state T surf) rs cells3,
+    P5.fresh_ok T surf s0 -> M5.s_cache s0 = [] -> NoDup (map fst (M5.s_cells s0)) ->
+    P5.all_ref_free T surf s0 ->
+    (forall c cl, M5.dget c (M5.s_cells s0) = Some cl -> M5.c_orig cl = []) ->
+    M5.trcl_phase T surf tr_empty teqb tr_surf fuel (map fst (M5.s_cells s0)) s0 = M5.Ok s1 ->
+    M5.fill_phase T surf tr_empty teqb tr_surf fuel cf ifd ifg s1 = M5.Ok (rs, s2) ->
+    M5.inline_cells T fuel num den (M5.s_cells s2) = M5.Ok cells3 ->
+    forall key ks kcl, In (key, ks) (combine (M5.fill_keys (M5.s_cells s0)) rs) ->
+    M5.dget key (M5.s_cells s0) = Some kcl -> 0 < M5.c_imp kcl ->
+    forall k, In k ks -> exists ncl, M5.dget k cells3 = Some ncl /\ live (bridge ncl) = true.
+  Proof.
+    intros fuel cf ifd ifg num den s0 s1 s2 rs cells3 Hf Hc Hnd Hrf Ho Ht Hfill Hinl
+           key ks kcl Hpair Hkcl Himp k Hk.
+    destruct (T5.C05_trcl_phase_den T surf P tr_empty teqb tr_surf inv sense Hsense Hkey
+                fuel _ s0 s1 Hf Hc Hnd Hrf Ht) as [Hf1 [Hc1 [_ [_ [Hkeep Hother]]]]].
+    assert (Ho1 : forall c cl1, M5.dget c (M5.s_cells s1) = Some cl1 -> M5.c_orig cl1 = []).
+    { intros c cl1 Hc1'. destruct (in_dec Z.eq_dec c (map fst (M5.s_cells s0))) as [Hi|Hi].
+      - destruct (dget_keys c _ Hi) as [cl0 Hcl0].
+        destruct (Hkeep c cl0 Hi Hcl0) as [g' [Hg' _]]. rewrite Hg' in Hc1'. inversion Hc1'; subst.
+        simpl. eapply Ho; eauto.
+      - rewrite (Hother c Hi) in Hc1'. eapply Ho; eauto. }
+    destruct (P5.fill_phase_spec T surf P tr_empty teqb tr_surf inv sense Hsense Hkey
+                fuel cf ifd ifg s1 rs s2 Hf1 Hc1 Ho1 Hfill) as [_ [_ HF]].
+    rewrite (P5.fill_keys_sk T _ _ (P5.trcl_phase_sk T surf tr_empty teqb tr_surf fuel _ s0 s1 Hrf Ht)) in HF.
+    destruct (Forall2_pick_pair _ _ _ key ks HF Hpair) as [chs [_ HG]].
+    destruct (Forall2_In_l' _ _ _ k HG Hk) as [ch [_ G]].
+    destruct G as (ncl & lcl & kcl1 & r & _ & H2 & _ & H4 & H5 & _ & _ & _ & _ & H10 & H11 & _).
+    destruct (Hkeep key kcl (dget_in_keys key kcl _ Hkcl) Hkcl) as [g1 [Hg1 _]].
+    rewrite Hg1 in H4. inversion H4; subst kcl1. simpl in H10, H11.
+    destruct (fill_keys_univ0 _ key Hnd (in_combine_l _ _ _ _ Hpair)) as [kcl' [Hk' Hu]].
+    rewrite Hkcl in Hk'. inversion Hk'; subst kcl'.
+    destruct (P5.inline_cells_fields T fuel num den _ _ Hinl k ncl H2) as [g3 Hg3].
+    exists (M5.with_geom ncl g3). split; [exact Hg3|].
+    unfold live, bridge. simpl. rewrite H5, H10, H11, Hu. simpl.
+    destruct (M5.c_imp kcl <=? 0) eqn:E; [apply Z.leb_le in E; exfalso; auto with zarith | reflexivity].
+  Qed.
+
+  (* round 3: no hypothesis on the returned cell; the volume table in the shape C01_cells
+     gives it (a returned cell has a non-virtual volume with its idorigin, or is empty) *)
+  Theorem point_composition_written_linked :
+    forall fuel cf ifd ifg num den (s0 s1 s2 : M5.state T surf) rs cells3,
+    P5.fresh_ok T surf s0 -> M5.s_cache s0 = [] -> NoDup (map fst (M5.s_cells s0)) ->
+    P5.all_ref_free T surf s0 ->
+    (forall c cl, M5.dget c (M5.s_cells s0) = Some cl -> M5.c_orig cl = []) ->
+    M5.trcl_phase T surf tr_empty teqb tr_surf fuel (map fst (M5.s_cells s0)) s0 = M5.Ok s1 ->
+    M5.fill_phase T surf tr_empty teqb tr_surf fuel cf ifd ifg s1 = M5.Ok (rs, s2) ->
+    M5.inline_cells T fuel num den (M5.s_cells s2) = M5.Ok cells3 ->
+    (* a filled level-0 cell of positive importance and the cells returned for it *)
+    forall key ks kcl, In (key, ks) (combine (M5.fill_keys (M5.s_cells s0)) rs) ->
+    M5.dget key (M5.s_cells s0) = Some kcl -> 0 < M5.c_imp kcl ->
+    forall vols g,
+    (forall k, In k ks ->
+       (exists v ncl, In (k, v) vols /\ v_fictive v = false /\
+                      M5.dget k cells3 = Some ncl /\ v_origin v = M5.c_orig ncl) \/
+       (forall q, ~ S5.Den T surf P sense (P5.set_cells T surf s2 cells3) q (M5.TRef k) true)) ->
+    geomcomp vols (bridge_cells cells3) = Ok g ->
+    forall p ch,
+    S5.LocW T surf P tr_empty inv sense s0 (M5.by_universe (M5.s_cells s0)) key p ch true ->
+    exists k lcl z,
+      In k ks /\
+      S5.Den T surf P sense (P5.set_cells T surf s2 cells3) p (M5.TRef k) true /\
+      M5.dget (last ch 0) (M5.s_cells s0) = Some lcl /\
+      int_of_token (mat_of (M5.c_mat lcl)) = Some z /\
+      member g (material_name z (bridge lcl)) k /\
+      (forall l d, comp_names z (bridge_cells cells3) = Ok l -> dens_normal (bridge_cells cells3) ->
+                   dens_of (M5.c_rho lcl) = Some d ->
+                   In ("m" ++ material_name z (bridge lcl))%string l).
+  Proof.
+    intros fuel cf ifd ifg num den s0 s1 s2 rs cells3 Hf Hc Hnd Hrf Ho Ht Hfill Hinl
+           key ks kcl Hpair Hkcl Himp vols g Hvols Hg p ch Hloc.
+    assert (Hv' : forall k, In k ks ->
+              S5.Den T surf P sense (P5.set_cells T surf s2 cells3) p (M5.TRef k) true ->
+              exists v ncl, In (k, v) vols /\ v_fictive v = false /\
+                            M5.dget k cells3 = Some ncl /\ v_origin v = M5.c_orig ncl).
+    { intros k Hk HD. destruct (Hvols k Hk) as [H|H]; [exact H | elim (H p HD)]. }
+    destruct (point_core fuel cf ifd ifg num den s0 s1 s2 rs cells3 Hf Hc Hnd Hrf Ho Ht Hfill Hinl
+                key ks Hpair vols g p Hv' Hg ch Hloc)
+      as (k & ncl & lcl & z & Hk & HD & Hn & _ & Hl & Hz & Hm & Hcomp & _).
+    exists k, lcl, z. repeat (split; [assumption|]).
+    intros l d Hl' Hdn Hd.
+    destruct (returned_cells_live fuel cf ifd ifg num den s0 s1 s2 rs cells3 Hf Hc Hnd Hrf Ho Ht Hfill Hinl
+                key ks kcl Hpair Hkcl Himp k Hk) as [ncl' [Hn' Hlive]].
+    rewrite Hn in Hn'. inversion Hn'; subst ncl'.
+    exact (Hcomp l d Hl' Hdn Hlive Hd).
   Qed.
 End Link.
